@@ -189,6 +189,103 @@ func init() {
 		}
 		return iface{t: p.t, v: v.v}
 	}
+	// vFreeze(label, xs...): everything reachable from the xs (slice
+	// elements, pointees, struct fields, maps; depth 5) becomes read-only:
+	// a later write is a violation of obligation <label>.  vThaw() ends it.
+	// Natively: a deep snapshot, compared by vCheckFrozen().
+	apiIntrinsics["vFreeze"] = func(fr *frame, args []value) value {
+		label := concreteString(args[0], "label")
+		var walk func(v value, depth int)
+		walk = func(v value, depth int) {
+			if depth > 5 {
+				return
+			}
+			switch x := v.(type) {
+			case iface:
+				walk(x.v, depth)
+			case []value:
+				full := x[:cap(x)]
+				for i := range full {
+					fr.r.frozen[&full[i]] = label
+					if i < len(x) {
+						walk(x[i], depth+1)
+					}
+				}
+			case *value:
+				if x != nil {
+					if _, seen := fr.r.frozen[x]; seen {
+						return
+					}
+					fr.r.frozen[x] = label
+					walk(*x, depth+1)
+				}
+			case structure:
+				for i := range x {
+					fr.r.frozen[&x[i]] = label
+					walk(x[i], depth+1)
+				}
+			case array:
+				for i := range x {
+					fr.r.frozen[&x[i]] = label
+					walk(x[i], depth+1)
+				}
+			case *smap:
+				if x != nil {
+					fr.r.frozenMap[x] = label
+				}
+			}
+		}
+		if vs, ok := args[1].([]value); ok {
+			for _, v := range vs {
+				walk(v, 0)
+			}
+		}
+		return nil
+	}
+	apiIntrinsics["vThaw"] = func(fr *frame, args []value) value {
+		fr.r.frozen = map[*value]string{}
+		fr.r.frozenMap = map[*smap]string{}
+		return nil
+	}
+	apiIntrinsics["vCheckFrozen"] = func(fr *frame, args []value) value { return nil }
+	// vSetField(ptr, name, v): assign v to the named field of the struct
+	// behind ptr, converting between integer widths the way a weakly typed
+	// configuration decoder does (truncation); false if there is no such field.
+	apiIntrinsics["vSetField"] = func(fr *frame, args []value) value {
+		x, ok := args[0].(iface)
+		if !ok || x.t == nil {
+			return tFalse
+		}
+		pt, ok := x.t.Underlying().(*types.Pointer)
+		if !ok {
+			return tFalse
+		}
+		st, ok := pt.Elem().Underlying().(*types.Struct)
+		cell := ptrOf(x)
+		if !ok || cell == nil {
+			return tFalse
+		}
+		fields, ok := (*cell).(structure)
+		if !ok {
+			return tFalse
+		}
+		name := concreteString(args[1], "field name")
+		for i := 0; i < st.NumFields() && i < len(fields); i++ {
+			if st.Field(i).Name() != name {
+				continue
+			}
+			v := args[2].(iface)
+			val := v.v
+			if t, isTerm := val.(*Term); isTerm && v.t != nil {
+				if _, _, isInt := intInfo(st.Field(i).Type()); isInt {
+					val = fr.r.conv(st.Field(i).Type(), v.t, t)
+				}
+			}
+			fr.r.storeTo(&fields[i], val)
+			return tTrue
+		}
+		return tFalse
+	}
 	apiIntrinsics["vFact"] = func(fr *frame, args []value) value {
 		fr.r.facts[concreteString(args[0], "fact key")] = toStringPlain(args[1])
 		return nil
@@ -518,6 +615,55 @@ func init() {
 		fr.r.syncEvent("Lock", args[0])
 		return tTrue
 	}
+	// sync.Pool, worst case for reuse: Get hands out the most recently Put
+	// object (exactly as it was put back); New only when the pool is empty.
+	poolNew := func(fr *frame, p *value) value {
+		recv := fr.fn.Signature.Recv()
+		if recv == nil {
+			return iface{}
+		}
+		pt, ok := recv.Type().Underlying().(*types.Pointer)
+		if !ok {
+			return iface{}
+		}
+		st, ok := pt.Elem().Underlying().(*types.Struct)
+		fields, ok2 := (*p).(structure)
+		if !ok || !ok2 {
+			return iface{}
+		}
+		for i := 0; i < st.NumFields() && i < len(fields); i++ {
+			if st.Field(i).Name() == "New" {
+				if fields[i] == nil {
+					return iface{}
+				}
+				if c, isC := fields[i].(*closure); isC && c == nil {
+					return iface{}
+				}
+				if f, isF := fields[i].(*ssa.Function); isF && f == nil {
+					return iface{}
+				}
+				return fr.r.call(fr, token.NoPos, fields[i], nil)
+			}
+		}
+		return iface{}
+	}
+	intrinsics["(*sync.Pool).Get"] = func(fr *frame, args []value) value {
+		p := args[0].(*value)
+		if q := fr.r.pools[p]; len(q) > 0 {
+			v := q[len(q)-1]
+			fr.r.pools[p] = q[:len(q)-1]
+			return v
+		}
+		return poolNew(fr, p)
+	}
+	intrinsics["(*sync.Pool).Put"] = func(fr *frame, args []value) value {
+		p := args[0].(*value)
+		if x, ok := args[1].(iface); ok && x.t == nil {
+			return nil
+		}
+		fr.r.pools[p] = append(fr.r.pools[p], args[1])
+		return nil
+	}
 	intrinsics["(*sync.Once).Do"] = func(fr *frame, args []value) value {
 		p := args[0].(*value)
 		st := (*p).(structure)
@@ -559,6 +705,21 @@ func init() {
 	intrinsics["sync/atomic.StorePointer"] = func(fr *frame, args []value) value {
 		fr.r.storeTo(args[0], args[1])
 		return nil
+	}
+	intrinsics["sync/atomic.SwapPointer"] = func(fr *frame, args []value) value {
+		old := fr.r.loadFrom(args[0])
+		fr.r.storeTo(args[0], args[1])
+		return old
+	}
+	intrinsics["sync/atomic.CompareAndSwapPointer"] = func(fr *frame, args []value) value {
+		old := fr.r.loadFrom(args[0])
+		po, _ := old.(*value)
+		pe, _ := args[1].(*value)
+		if po == pe {
+			fr.r.storeTo(args[0], args[2])
+			return tTrue
+		}
+		return tFalse
 	}
 
 	// sort.Slice: identity permutation; the comparator is exercised once per
@@ -1210,6 +1371,14 @@ func init() {
 	apiIntrinsics["vTraceCheckAtomic"] = func(fr *frame, args []value) value {
 		op := concreteString(args[0], "operation name")
 		mu := concreteString(args[1], "mutex name")
+		// "prefix.*": any lock whose name starts with the prefix (the field
+		// name of a mutex named by vWatchAll is not the harness's business)
+		isMu := func(obj string) bool {
+			if strings.HasSuffix(mu, "*") {
+				return strings.HasPrefix(obj, mu[:len(mu)-1])
+			}
+			return obj == mu
+		}
 		evs := parseTrace(fr.r.trace)
 		secs := 0
 		inside := false
@@ -1217,9 +1386,9 @@ func init() {
 		outside := ""
 		for _, e := range evs {
 			switch {
-			case (e.kind == "acqW" || e.kind == "acqR") && e.obj == mu:
+			case (e.kind == "acqW" || e.kind == "acqR") && isMu(e.obj):
 				inside, used = true, false
-			case (e.kind == "relW" || e.kind == "relR") && e.obj == mu:
+			case (e.kind == "relW" || e.kind == "relR") && isMu(e.obj):
 				if used {
 					secs++
 				}
